@@ -1,7 +1,11 @@
 (* model-side driver for C11: reads the base graph written by `c11obs base` (file argv.(1)) and one
    configuration per stdin line; prints what the Gallina model predicts.
 
-   config line:  <id> <nodefaults 0|1> <custom 0|1> [D:<hexname>]* [O:<hexname>:<node>]* [L:<hexname>]*
+   config line:  <id> <nodefaults 0|1> <custom 0|1> tokens...; the option tokens are composed IN THE ORDER GIVEN by the
+                 model's config_of:  ND (WithoutDefaultGlobals)  D:<hexname> (WithoutGlobal)  DM:<hex>,<hex>,... (WithoutGlobals)
+                 G:<hexname>:<node> (WithGlobal)  GM:<hex>=<node>,... (WithGlobals)  O:<hexname>:<node> (WithGlobalOverride);
+                 A:<node>:<hex>=<node>,... a module the host assembles (NewBuiltinsModule) before configuring;
+                 L:<hexname> a name to look up afterwards
    output line:  <id> TAB env=x<hex>,x<hex>,... TAB reach=<n,n,...> TAB look=x<hex>:<n|none>,...
    special line: NAMES  -> the registered names of instance 1 (hex, comma separated) and check_deny for each *)
 open Globals_model
@@ -71,15 +75,28 @@ let () =
        end else begin
          match String.split_on_char ' ' line with
          | id :: nd :: cu :: rest ->
-           let deny = ref [] and over = ref [] and look = ref [] in
+           let opts = ref [] and look = ref [] and world = ref defaults in
+           let pairs sep s =
+             List.filter_map (fun it ->
+                 match String.split_on_char sep it with
+                 | [n; v] -> Some (coq_string (unhex n), pos_of_int (int_of_string v))
+                 | _ -> None) (String.split_on_char ',' s) in
+           if nd = "1" then opts := OptNoDefaults :: !opts;
+           if cu = "1" then opts := OptGlobals env3 :: !opts;
            List.iter (fun tok ->
                match String.split_on_char ':' tok with
-               | ["D"; n] -> deny := coq_string (unhex n) :: !deny
-               | ["O"; n; v] -> over := (coq_string (unhex n), pos_of_int (int_of_string v)) :: !over
+               | ["ND"] -> opts := OptNoDefaults :: !opts
+               | ["D"; n] -> opts := OptWithout (coq_string (unhex n)) :: !opts
+               | ["DM"; ns] ->
+                 opts := OptWithoutMany (List.filter_map (fun n -> if n = "" then None else Some (coq_string (unhex n)))
+                                           (String.split_on_char ',' ns)) :: !opts
+               | ["G"; n; v] -> opts := OptGlobal (coq_string (unhex n), pos_of_int (int_of_string v)) :: !opts
+               | ["GM"; ps] -> opts := OptGlobals (pairs '=' ps) :: !opts
+               | ["O"; n; v] -> opts := OptOverride (coq_string (unhex n), pos_of_int (int_of_string v)) :: !opts
+               | ["A"; v; ps] -> world := assemble_module !world (pos_of_int (int_of_string v)) (pairs '=' ps)
                | ["L"; n] -> look := unhex n :: !look
                | _ -> ()) rest;
-           let c = mk_config (nd = "1") (if cu = "1" then env3 else []) (List.rev !deny) (List.rev !over) in
-           let w = run_config defaults c in
+           let w = run_options !world (List.rev !opts) in
            let envs = List.sort compare (List.map (fun n -> "x" ^ hex_of (ocaml_string n)) (env_names w)) in
            let reach = match reach_list w with
              | Some l -> String.concat "," (List.map string_of_int (List.sort compare (List.map int_of_pos l)))
